@@ -298,9 +298,15 @@ def _spell(name, rng):
     return rng.choice([name, name, name.upper(), "-".join(x.capitalize() for x in name.split("-"))])
 
 
-def _mhtml(html_bytes, enc, rng):
-    """MIME HTML archive; the transfer encoding's NAME is spelled lower / UPPER / Title case (case-insensitive per
-    RFC 2045), the encoded body's line width is drawn."""
+FLAT_TREE = {"t": "related", "k": [{"t": "html", "k": []}, {"t": "gif", "k": []}]}
+HTML_LEAF = {"t": "html", "k": []}
+
+
+def _mhtml(html_bytes, enc, rng, tree=None):
+    """MIME HTML archive whose parts form `tree` (HtmlSkipParts: exactly one text/html leaf, at any depth, before or
+    after sibling leaves / containers; a bare html leaf = a single-part message).  The transfer encoding's NAME is
+    spelled lower / UPPER / Title case (case-insensitive per RFC 2045), the encoded body's line width is drawn."""
+    tree = tree or FLAT_TREE
     if enc == "base64":
         w = rng.choice([16, 40, 76])
         raw = base64.b64encode(html_bytes)
@@ -312,14 +318,33 @@ def _mhtml(html_bytes, enc, rng):
     else:
         body = html_bytes.replace(b"\n", b"\r\n")
         cte = _spell(rng.choice(["7bit", "8bit", "binary"]), rng)
-    b = b"----MultipartBoundary--c17----"
+    count = [0]
+
+    def part(node):
+        """-> (header lines, body bytes) of one MIME entity"""
+        t = node["t"]
+        if t == "html":
+            ct = rng.choice([b"text/html", b"text/html", b'text/html; charset="utf-8"'])
+            return ([b"Content-Type: " + ct, b"Content-ID: <frame-1@mhtml.blink>",
+                     b"Content-Transfer-Encoding: " + cte.encode(), b"Content-Location: http://example.org/"], body)
+        if t == "plain":
+            return ([b'Content-Type: text/plain; charset="utf-8"', b"Content-Transfer-Encoding: 7bit"],
+                    b"plain text alternative of the page")
+        if t == "gif":
+            return ([b"Content-Type: image/gif", b"Content-Transfer-Encoding: base64",
+                     b"Content-Location: http://example.org/p.gif"], b"R0lGODlhAQABAAAAACw=")
+        count[0] += 1
+        bnd = b"----MultipartBoundary--c17-%d----" % count[0]
+        chunks = []
+        for kid in node["k"]:
+            hdr, bd = part(kid)
+            chunks.append(b"--" + bnd + b"\r\n" + b"\r\n".join(hdr) + b"\r\n\r\n" + bd + b"\r\n")
+        extra = b';\r\n\ttype="text/html"' if t == "related" else b""
+        return ([b"Content-Type: multipart/" + t.encode() + extra + b';\r\n\tboundary="' + bnd + b'"'],
+                b"\r\n" + b"".join(chunks) + b"--" + bnd + b"--")
+    hdr, bd = part(tree)
     return (b"From: <Saved by Blink>\r\nSnapshot-Content-Location: http://example.org/\r\nSubject: s\r\n"
-            b"MIME-Version: 1.0\r\nContent-Type: multipart/related;\r\n\ttype=\"text/html\";\r\n\tboundary=\"" + b + b"\"\r\n\r\n\r\n"
-            b"--" + b + b"\r\nContent-Type: text/html\r\nContent-ID: <frame-1@mhtml.blink>\r\n"
-            b"Content-Transfer-Encoding: " + cte.encode() +
-            b"\r\nContent-Location: http://example.org/\r\n\r\n" + body + b"\r\n--" + b +
-            b"\r\nContent-Type: image/gif\r\nContent-Transfer-Encoding: base64\r\nContent-Location: http://example.org/p.gif\r\n\r\n"
-            b"R0lGODlhAQABAAAAACw=\r\n--" + b + b"--\r\n")
+            b"MIME-Version: 1.0\r\n" + b"\r\n".join(hdr) + b"\r\n\r\n" + bd + b"\r\n")
 
 
 _CONTAINER = (b'<?xml version="1.0"?><container version="1.0" xmlns="urn:oasis:names:tc:opendocument:xmlns:container">'
@@ -450,7 +475,8 @@ def _worker(inp, outp):
             obs2 = _obs_text(obs2)
         events.append({"a": "Obs", "w": w, "eof": f["eof"], "toks": [{"k": k, "n": n} for k, n in f["full"]],
                        "seen": seen, "body": body, "seq": seq, "meta": meta, "del": sorted(deleted),
-                       "same": bool(meta and _norm(obs) == _norm(obs2)), "html": html, "base": cur[0]})
+                       "same": bool(meta and _norm(obs) == _norm(obs2)), "html": html, "base": cur[0],
+                       "tree": tree_now[0] if w.startswith("mhtml") else HTML_LEAF})
 
     def guarded(fn):
         try:
@@ -469,8 +495,11 @@ def _worker(inp, outp):
     def run_html(h):
         return guarded(lambda: _texts_html(next(read_html(io.BytesIO(h.encode("utf-8")), path="x.html"))))
 
+    trees = job.get("trees") or [FLAT_TREE]
+    tree_now = [HTML_LEAF]
+
     def run_mhtml(h, enc):
-        blob = _mhtml(h.encode("utf-8"), enc, rng)
+        blob = _mhtml(h.encode("utf-8"), enc, rng, tree_now[0])
         return guarded(lambda: _texts_html(next(read_mhtml(io.BytesIO(blob), path="x.mhtml"))))
 
     cur = [None]
@@ -490,10 +519,12 @@ def _worker(inp, outp):
             enc, w = ("base64", "mhtml_b64") if rng.random() < 0.75 else ("identity", "mhtml_raw")
             f = frame(toks, w)
             html, html2, deleted = both(f, case["d"])
+            tree_now[0] = FLAT_TREE if rng.random() < 0.3 else rng.choice(trees)
             add(w, f, html, run_mhtml(html, enc), html2 and run_mhtml(html2, enc), deleted)
         if "mhtml_qp" in sel:
             f = frame(toks)
             html, html2, deleted = both(f, case["d"])
+            tree_now[0] = FLAT_TREE if rng.random() < 0.3 else rng.choice(trees)
             add("mhtml_qp", f, html, run_mhtml(html, "quoted-printable"),
                 html2 and run_mhtml(html2, "quoted-printable"), deleted)
         if "epub" in sel:
@@ -568,7 +599,7 @@ EX_CFG = "SPECIFICATION ExplainSpec\n"
 
 
 def _strip(t):
-    return {"id": t["id"], "ev": [{k: e[k] for k in ("a", "w", "eof", "toks", "seen", "body", "seq", "meta", "del", "same")}
+    return {"id": t["id"], "ev": [{k: e[k] for k in ("a", "w", "eof", "toks", "seen", "body", "seq", "meta", "del", "same", "tree")}
                                   for e in t["ev"]]}
 
 
@@ -636,12 +667,38 @@ def _model_agreement(ctx, traces, model):
 
 
 # --------------------------------------------------------------------------- driver
-def _run_workers(ctx, cases, msgfile):
+def _tree_str(n):
+    return n["t"] + ("[" + ", ".join(_tree_str(x) for x in n["k"]) + "]" if n["k"] else "")
+
+
+def _part_trees(ctx):
+    """MIME part trees enumerated by TLC (HtmlSkipParts): every archive with exactly one text/html leaf at depth <= 3
+    (siblings: leaves; thorough also depth <= 2 with container siblings)."""
+    out = []
+    for dep, rich in ([(3, "FALSE"), (2, "TRUE")] if ctx.thorough else [(3, "FALSE")]):
+        dump = ctx.scratch / f"trees-{dep}-{rich}.dump"
+        r = run_tlc("HtmlSkipParts", f"SPECIFICATION Spec\nCONSTANTS Depth = {dep}\n RichSiblings = {rich}\n"
+                    "INVARIANT Inv_AllArchives\n", scratch=ctx.scratch / f"trees-{dep}-{rich}", dump=dump, timeout=900)
+        ctx.ev.tlc(f"HtmlSkipParts: all part trees with one text/html leaf, depth<={dep}, rich siblings={rich}", r)
+        path = dump if dump.exists() else Path(str(dump) + ".dump")
+
+        def plain(n):
+            return {"t": str(n["t"]), "k": [plain(x) for x in n["k"]]}
+        got = [plain(s["tr"]) for s in iter_dump(path)]
+        if len(got) != r.distinct:
+            raise MachineryError(f"tree dump has {len(got)} states, TLC reported {r.distinct}")
+        out += got
+    out.sort(key=json.dumps)
+    return out
+
+
+def _run_workers(ctx, cases, msgfile, trees=None):
     n = min(NWORKERS, max(1, len(cases) // 50))
     procs = []
     for k in range(n):
         inp, outp = ctx.scratch / f"job-{k}.json", ctx.scratch / f"obs-{k}.json"
-        inp.write_text(json.dumps({"seed": ctx.seed * 1000003 + k, "cases": cases[k::n], "msgfile": msgfile}))
+        inp.write_text(json.dumps({"seed": ctx.seed * 1000003 + k, "cases": cases[k::n], "msgfile": msgfile,
+                                   "trees": trees}))
         procs.append((outp, subprocess.Popen([PY, "-m", "mbv.props.c17", "worker", str(inp), str(outp)],
                                              env=child_env(), cwd=str(VERIF), stdout=subprocess.PIPE,
                                              stderr=subprocess.PIPE, text=True)))
@@ -709,10 +766,12 @@ def _report(ctx, traces, accepted, bad):
         must_seq = [q for q in e["seq"] if cls[q - 1] == "MUST"]
         if must_seq != sorted(must_seq):
             what.append(f"visible text rearranged (order in the main text {must_seq})")
+        if w.startswith("mhtml"):
+            comp += "  in " + _tree_str(e["tree"])
         v.violation(what=f"{'; '.join(what) or 'observation rejected'} via {w}: {comp}   "
                          f"[{len(items)} rejected observations in this run]",
                     case={"wrapper": w, "eof": e["eof"], "toks": e["toks"], "base": e["base"], "html": e["html"],
-                          "d": e.get("d0", []), "dx": e.get("dx0", [])},
+                          "d": e.get("d0", []), "dx": e.get("dx0", []), "mime_tree": _tree_str(e["tree"])},
                     expected=cls, observed={"seen_positions": e["seen"], "order_in_main_text": e["seq"]}, where=WHERE)
 
 
@@ -729,7 +788,8 @@ def _replay(ctx):
     case = json.loads(Path(ctx.replay).read_text())["case"]
     toks = case["base"]                                   # the enumerated string; the frame adds its own tokens
     cases = [{"toks": toks, "w": [case["wrapper"]], "d": case.get("d", []), "dx": case.get("dx", [])} for _ in range(60)]
-    events, _, _ = _run_workers(ctx, cases, case["wrapper"] == "msgfile")
+    events, _, _ = _run_workers(ctx, cases, case["wrapper"] in ("msgfile", "msgfrag"),
+                                _part_trees(ctx) if case["wrapper"].startswith("mhtml") else None)
     traces = _build_traces(events)
     accepted, bad, d, g, wall = validate_events(ctx, traces)
     ctx.ev.tlc_counts("HtmlSkipTrace: replayed case", d, g, wall)
@@ -811,7 +871,8 @@ def run(ctx):
         cases.append({"toks": [list(t) for t in k], "w": w, "d": strings[k][2], "dx": strings[k][3]})
 
     # ---- 3. replay through the library, 4. validate by TLC
-    events, msg_skipped, msg_ok = _run_workers(ctx, cases, True)
+    trees = _part_trees(ctx)
+    events, msg_skipped, msg_ok = _run_workers(ctx, cases, True, trees)
     by_w = {}
     for e in events:
         by_w[e["w"]] = by_w.get(e["w"], 0) + 1
@@ -839,7 +900,7 @@ def run(ctx):
                 "classification (TLC) contains both a MUST and a MUSTNOT word",
            exhaustive=not ctx.thorough,
            constants={"alphabets": [f"{a}<={n}" + (" (length 5 sampled)" if sl else "") for a, n, sl in gens], "strings_enumerated": n_all,
-                      "strings_replayed": len(keys), "observations": by_w,
+                      "strings_replayed": len(keys), "observations": by_w, "mime_part_trees": len(trees),
                       "msgfile_fixture_usable": msg_ok, "msgfile_skipped_too_long": msg_skipped})
     ev.assume("token strings are rendered in body context (lead word or explicit <body>); HTML5 head-context rules "
               "for <noscript> are outside the model",
@@ -860,7 +921,8 @@ def _corrupt_demo():
     tk = lambda *ts: [{"k": k, "n": n} for k, n in ts]
     good = {"a": "Obs", "w": "html", "eof": True, "html": "",
             "toks": tk(("T", ""), ("S", "noscript"), ("T", ""), ("S", "img"), ("E", "noscript"), ("T", "")), "seen": [1, 6],
-            "body": [1, 6], "seq": [1, 6], "meta": True, "del": [2, 3, 4, 5], "same": True}
+            "body": [1, 6], "seq": [1, 6], "meta": True, "del": [2, 3, 4, 5], "same": True,
+            "tree": HTML_LEAF}
     variants = {"recorded": good,
                 "seen += hidden position 3": dict(good, seen=[1, 3, 6], body=[1, 3, 6], seq=[1, 3, 6]),
                 "seen -= visible position 6": dict(good, seen=[1], body=[1], seq=[1]),
